@@ -5,9 +5,9 @@ From Coq Require Import Lia Permutation.
 
 Ltac simp :=
   repeat match goal with x := _ |- _ => subst x end;
-  cbn [chans senders subs streams adds drops tasks reader socket incoming dead cloned
+  cbn [chans senders subs streams adds drops tasks reader socket incoming dead arcs
        with_chans with_senders with_subs with_streams with_adds with_drops with_tasks with_reader with_socket with_incoming
-       with_dead with_cloned set_chan bury mk_stream got_more add_at s_rule s_ch s_from s_got a_rule a_q a_pc] in *;
+       with_dead with_arcs set_chan bury mk_stream got_more add_at s_rule s_ch s_from s_got a_rule a_q a_pc] in *;
   autorewrite with rms in *.
 
 Ltac rm_frame :=
@@ -125,9 +125,9 @@ Qed.
 
 Ltac tsimp :=
   repeat match goal with x := _ |- _ => subst x end;
-  cbn [chans senders subs streams adds drops tasks reader socket incoming dead cloned
+  cbn [chans senders subs streams adds drops tasks reader socket incoming dead arcs
        with_chans with_senders with_subs with_streams with_adds with_drops with_tasks with_reader with_socket with_incoming
-       with_dead with_cloned mk_stream got_more add_at s_rule s_ch s_from s_got a_rule a_q a_pc] in *.
+       with_dead with_arcs mk_stream got_more add_at s_rule s_ch s_from s_got a_rule a_q a_pc] in *.
 
 Lemma a2_same_adds s s' : adds s' = adds s -> forall sid r c, a2 s sid r c -> a2 s' sid r c.
 Proof. unfold a2. intros ->. tauto. Qed.
@@ -429,6 +429,8 @@ Proof.
         destruct Ha as (a' & Ha' & _ & Hp'). rewrite H in Ha'. inversion Ha'; subst a'. congruence.
     + intros sid' st' Hl'. tsimp. rewrite chans_set_chan, length_upd. autorewrite with chat. destruct (Istr _ _ Hl') as (Hc' & (p & Hp) & Hn).
       split; [assumption|]. split; [|assumption]. rewrite chan_at_set_other by (exact (Hnost _ _ Hl')). eauto.
+  - (* drop, shared rule: as drop *) destruct H as [Hl Hd]. exact (own_bury s sid st O Hl).
+  - destruct H as [Hl Hd]. exact (own_bury s sid st O Hl).
 Qed.
 
 (* ---- a call in A2: its channel is fresh, unregistered, empty, open, and only it has a receiver there ---- *)
@@ -527,6 +529,13 @@ Proof.
   - exfalso. eapply (inv_excl _ _ I sid0 r0 c0 r c); [eapply a2_ext; [|exact Ha']; tsimp; apply adds_rm|]. right. eapply nth_error_In; eassumption.
   - (* add sender, failed: it was the only call in A2 and it is over *)
     exfalso. match type of Ha' with a2 ?s1 _ _ _ => apply (a2_del s s1 sid sid0 r0 c0 eq_refl) in Ha' end. destruct Ha' as [Ha' Hne]. apply Hne. eapply (inv_a2_uniq _ _ I); [exact Ha' | exists a; eauto].
+  - (* drop, shared rule: as drop *)
+    assert (Ha : a2 s sid0 r0 c0) by exact Ha'. destruct (inv_a2 _ _ I _ _ _ Ha) as (F1 & F2 & F3 & F4 & F5 & F6 & F7). destruct H as [Hl Hd].
+    unfold a2_facts. tsimp. autorewrite with chat. rewrite chans_bury, streams_bury, length_upd. rewrite chan_at_set_other by (apply not_eq_sym; eauto).
+    repeat split; try assumption; try lia. intros sid' st' Hst. apply in_del_lookup in Hst. eauto.
+  - assert (Ha : a2 s sid0 r0 c0) by exact Ha'. destruct (inv_a2 _ _ I _ _ _ Ha) as (F1 & F2 & F3 & F4 & F5 & F6 & F7). destruct H as [Hl Hd].
+    unfold a2_facts. tsimp. autorewrite with chat. rewrite chans_bury, streams_bury, length_upd. rewrite chan_at_set_other by (apply not_eq_sym; eauto).
+    repeat split; try assumption; try lia. intros sid' st' Hst. apply in_del_lookup in Hst. eauto.
 Qed.
 
 Lemma closed_rm_apply s r s1 o : Inv s -> rm_apply s r = (s1, o) -> closed_ok s1.
@@ -624,6 +633,8 @@ Proof.
   - exact (closed_rm_apply _ _ _ _ I H1).
   - exact (closed_rm_sender s r I).
   - (* add sender, failed: no senders *) intros k c0 Hin. change (In (k, c0) (senders s)) in Hin. rewrite H2 in Hin. destruct Hin.
+  - (* drop, shared rule: as drop *) destruct H as [Hl Hd]. exact (closed_bury s sid st Hold Istr Hl).
+  - destruct H as [Hl Hd]. exact (closed_bury s sid st Hold Istr Hl).
 Qed.
 
 End G2.
